@@ -9,6 +9,11 @@ package deputynode
 //@ pred special(h uint32) = h == 1 || IsRewardBlock(h)
 //@ pred cfgOK() = params.TermDuration > 0 && params.TermDuration <= 1<<30 && params.InterimDuration <= 1<<30
 
+//@ lemma mod_wrap(n mathint, k mathint)
+//@   props C13
+//@   requires n > 0 && 0 <= k && k < n
+//@   ensures k % n == k && (n + k) % n == k
+
 //@ func IsRewardBlock   pure
 //@   props C13
 //@   requires cfgOK()
@@ -79,3 +84,6 @@ package deputynode
 //@   ensures result1 == nil && special(targetHeight) ==> ds[(int(result0) - 1) % n].MinerAddress == targetMiner
 //@   ensures result1 == nil && !special(targetHeight) ==> exists(i, 0, n, ds[i].MinerAddress == parentBlockMiner && ds[(i + int(result0)) % n].MinerAddress == targetMiner)
 //@   ensures result1 != nil ==> result1 == ErrNotDeputy && result0 == 0
+//@   use mod_wrap(n, int(targetDeputy.Rank))
+//@   use mod_wrap(n, int(targetDeputy.Rank) - int(lastDeputy.Rank))
+//@   use mod_wrap(n, n + int(targetDeputy.Rank) - int(lastDeputy.Rank))
